@@ -114,7 +114,7 @@ class TwpRgeFinder:
                 left_bound = max((0, i - 20))
                 line = txt[left_bound:twprge_mo.end(0)]
                 self.flags.append(flag)
-                self.flag_lines.append(line)
+                self.flag_lines.append((flag, line))
 
         return None
 
